@@ -73,7 +73,14 @@ func c06FetchSet(d *c12Dag, viol func(sig, detail string), r *core.Run) {
 	for _, b := range d.blocks {
 		want[b.KeyString()] = true
 	}
-	for _, via := range c06Vias {
+	// sharded directories are accessed twice (fresh link system and node each
+	// time): what an earlier access left behind in the process must not stand in
+	// for blocks of a later one
+	vias := c06Vias
+	if d.hm != nil {
+		vias = append(append([]string{}, c06Vias...), c06Vias...)
+	}
+	for _, via := range vias {
 		d.s.ResetLogs()
 		var err error
 		if p, pv := core.Guard(func() { err = c06Do(d, via) }); p {
